@@ -7,7 +7,8 @@ from luqum.utils import UnknownOperationResolver
 
 CONFIGS = []
 for default in ("".join(["sho", "uld"]), "".join(["mu", "st"])):      # equal to, but not the same object as, the builder's constants
-    for nested in (None, {"n": ["x", "y"]}, {"n": {"x": None, "y": None, "m": ["z"]}}, {"n": {"m": ["z"]}}):
+    for nested in (None, {"n": ["x", "y"]}, {"n": {"x": None, "y": None, "m": ["z"]}}, {"n": {"m": ["z"]}},
+                   {"n": {"x": None, "y": None, "i.a": ["t"]}}):          # a nested field inside an object inside a nested field
         for analysed in (True, False):
             CONFIGS.append({"default_operator": default, "nested_fields": nested,
                             "not_analyzed_fields": [] if analysed else ["text", "t", "o.x", "n.x", "n.y", "n.m.z"]})
@@ -41,6 +42,10 @@ TARGETED = [
     "+n.x:d +n.x:d2", "+n.x:d +n.y:e c", "+n.m.z:g +n.m.z:g2", "n.x:d n.x:d2", "+n.x:d -n.x:d2 n.y:e", "-n.x:d -n.x:d2", "+n:(x:d) +n:(x:d2)",
     # a boosted group / field group as one optional clause among others (boolean operations tell required from optional clauses)
     "(a b)^2 c", "(a OR b)^2 c", "c t:(a b)^3", "n:(x:d (y:e y:e2)^2)", "(a -b)^2 c", "a (b -c)", "+a (b -c)", "(a b)^2 (c d)^3",
+    # refused inside a nested scope (AND / OR mix): what a long-lived builder does next must not depend on it
+    "n:(x:d OR x:d2 AND y:e)", "n:(x:d AND m:(z:g OR z:g2 AND z:g3))", "n.x:d OR n.y:e AND a",
+    # nested > object > nested
+    "n.i.a.t:v", "n:(i.a:(t:v))", "n.i.a:(t:v) AND n.x:d", "n:(x:d AND i.a.t:v)", "n:(i:(a:(t:v)))", "n.i.a.t:v AND n.i.a.t:v2", "NOT n.i.a.t:v", "n:(x:d OR i.a:(t:v AND t:v2))",
     "nx:q", "nx:q AND n.x:d", "n.mz:p", "n:(mz:p)", "n:(mz:p AND m.z:g)", "n.xy:r OR n.x:d", "n_m:s n.m.z:g",
 ]
 
